@@ -76,6 +76,7 @@ func opSubject(op string) string {
 // caseT is one explored case (also the replay artefact).
 type caseT struct {
 	Start string   `json:"start,omitempty"` // "" = empty database | pre = subject A exists and has a service
+	Methods string `json:"methods,omitempty"` // enabled DID methods: "" = web,nuts | nuts | web
 	Nuts  string   `json:"nuts"`            // scripted | real
 	Seq   []string `json:"seq"`             // operation sequence
 	At    int      `json:"at"`              // index of the operation that is cut
@@ -99,6 +100,7 @@ type network struct {
 var errPublish = errors.New("verif: environment refuses IsCommitted")
 
 type world struct {
+	methods string // enabled DID methods ("" = web and nuts)
 	t       testing.TB
 	commits []string // documents handed to successful method Commits during the running operation
 	kind    string
@@ -214,13 +216,15 @@ func (w *world) publish(change orm.DIDChangeLog) error {
 
 var rootDID = did.MustParseDID("did:web:example.com")
 
-func newWorld(t testing.TB, kind string) *world {
+func newWorld(t testing.TB, kind string) *world { return newWorldM(t, kind, "") }
+
+func newWorldM(t testing.TB, kind, methods string) *world {
 	se := storage.NewTestStorageEngine(t)
 	if err := se.Start(); err != nil {
 		t.Fatal(err)
 	}
 	db := se.GetSQLDatabase()
-	w := &world{t: t, kind: kind, se: se, db: db, ctx: audit.TestContext(),
+	w := &world{t: t, kind: kind, methods: methods, se: se, db: db, ctx: audit.TestContext(),
 		net: &network{published: map[string]bool{}}}
 	w.pool = fault.InstallPool(db)
 	w.pool.SchedPoints = false
@@ -257,10 +261,17 @@ func (w *world) build() {
 	} else {
 		nuts = didnuts.NewManager(w.ks, nil, nil, nil, w.db)
 	}
-	w.mgr = didsubject.New(w.db, map[string]didsubject.MethodManager{
-		"web":  &method{w: w, name: "web", inner: web},
-		"nuts": &method{w: w, name: "nuts", inner: nuts},
-	}, w.ks, []string{"web", "nuts"})
+	// the node enables a subset of its DID methods (configuration didmethods); vdr.Module builds the map the same way
+	managers, order := map[string]didsubject.MethodManager{}, []string{}
+	if w.methods != "nuts" {
+		managers["web"] = &method{w: w, name: "web", inner: web}
+		order = append(order, "web")
+	}
+	if w.methods != "web" {
+		managers["nuts"] = &method{w: w, name: "nuts", inner: nuts}
+		order = append(order, "nuts")
+	}
+	w.mgr = didsubject.New(w.db, managers, w.ks, order)
 }
 
 func (w *world) sweep() {
@@ -529,10 +540,10 @@ func sortedCopy(xs []string) []string {
 	return out
 }
 
-func dryRun(t *testing.T, r *ev.Run, kind, start string, seq []string) *twin {
+func dryRun(t *testing.T, r *ev.Run, kind, methods, start string, seq []string) *twin {
 	var tw *twin
 	t.Run(uniq("twin"), func(t *testing.T) {
-		w := newWorld(t, kind)
+		w := newWorldM(t, kind, methods)
 		w.preset(start)
 		tw = &twin{}
 		st, raw := w.observe()
@@ -549,11 +560,11 @@ func dryRun(t *testing.T, r *ev.Run, kind, start string, seq []string) *twin {
 			st, raw := w.observe()
 			if cl, what := successClause(tw.States[i], st, opSubject(op), tw.Results[i]); cl != "" {
 				r.Violation(fmt.Sprintf("C13|fault-free|%s|%s|none|%s-nuts", cl, opClass(op), kind), what,
-					caseT{Start: start, Nuts: kind, Seq: seq[:i+1], At: i, Mode: "none"})
+					caseT{Start: start, Methods: methods, Nuts: kind, Seq: seq[:i+1], At: i, Mode: "none"})
 			}
 			if cl, what := st.invariant(); cl != "" {
 				r.Violation(fmt.Sprintf("C13|fault-free|%s|%s|none|%s-nuts", cl, opClass(op), kind), what,
-					caseT{Start: start, Nuts: kind, Seq: seq[:i+1], At: i, Mode: "none"})
+					caseT{Start: start, Methods: methods, Nuts: kind, Seq: seq[:i+1], At: i, Mode: "none"})
 			}
 			tw.States, tw.Raw = append(tw.States, st), append(tw.Raw, raw)
 		}
@@ -641,7 +652,7 @@ func sameSets(a, b []string) bool { return strings.Join(a, ",") == strings.Join(
 func runCase(t *testing.T, r *ev.Run, c caseT, tw *twin) caseResult {
 	var cr caseResult
 	t.Run(uniq("case"), func(t *testing.T) {
-		w := newWorld(t, c.Nuts)
+		w := newWorldM(t, c.Nuts, c.Methods)
 		w.preset(c.Start)
 		op := c.Seq[c.At]
 		subject := opSubject(op)
@@ -655,8 +666,12 @@ func runCase(t *testing.T, r *ev.Run, c caseT, tw *twin) caseResult {
 			if c.Mode == "race" {
 				scenario = "race"
 			}
-			r.Violation(fmt.Sprintf("C13|%s|%s|%s|%s|%s-nuts", scenario, clause, opClass(op), c.Mode, c.Nuts),
-				fmt.Sprintf("%s [start %q, sequence %v, operation %d (%s) cut by %s at step %d (%s), sweep variant %s]", what, c.Start, c.Seq, c.At, op, c.Mode, c.Step, cr.cutClass+c.Race, c.Sweep), c)
+			cfg := ""
+			if c.Methods != "" {
+				cfg = "/only-" + c.Methods
+			}
+			r.Violation(fmt.Sprintf("C13|%s|%s|%s|%s|%s-nuts%s", scenario, clause, opClass(op), c.Mode, c.Nuts, cfg),
+				fmt.Sprintf("%s [methods %q, start %q, sequence %v, operation %d (%s) cut by %s at step %d (%s), sweep variant %s]", what, c.Methods, c.Start, c.Seq, c.At, op, c.Mode, c.Step, cr.cutClass+c.Race, c.Sweep), c)
 		}
 		diverged := func(what string) {
 			r.AssumptionCheck("twin-determinism", false, fmt.Sprintf("%s in case %s", what, ev.Key(c)))
@@ -724,6 +739,13 @@ func runCase(t *testing.T, r *ev.Run, c caseT, tw *twin) caseResult {
 		}
 		w.pool.Disarm()
 		cr.published = len(w.net.published) > nPublished
+		if c.Methods == "web" && c.Mode != "race" {
+			// did:web has no publish step: its documents are read from the database, so the operation has taken
+			// effect as soon as the first transaction is committed (every cut after it: a method-commit boundary,
+			// the second transaction, the end)
+			f := w.pool.Fired()
+			cr.published = f != nil && (f.Kind == "ext" || f.Tx > 1)
+		}
 		cr.outcome = fmt.Sprintf("%s %s@%s -> %s published=%v", opClass(op), c.Mode, cr.cutClass+c.Race, res, cr.published)
 
 		natural := tw.Results[c.At]
@@ -908,7 +930,7 @@ func TestVerifC13(t *testing.T) {
 	defer r.Finish()
 	// the node gives up on a bbolt lock after one second of REAL time; on a loaded machine that is a harness hazard
 	storage.DefaultBBoltOptions = append(storage.DefaultBBoltOptions, stoabs.WithLockAcquireTimeout(2*time.Minute))
-	r.Rule("operation sequences over {create A, create B, add/update/delete service, add key, deactivate} (create A twice = create same subject) up to the length bound, from the empty database and from a start state in which subject A exists and has a service; " +
+	r.Rule("operation sequences over {create A, create B, add/update/delete service, add key, deactivate} (create A twice = create same subject) up to the length bound, from the empty database and from a start state in which subject A exists and has a service; enabled DID methods [web,nuts], [nuts], [web]; " +
 		"for each operation of each sequence each numbered step of the fault-free twin run (SQL begin / statement / commit of both transactions, before and after each method's Commit, end) " +
 		"x {error, stop}, plus an un-aged sweep inside the operation at each method-commit boundary; scripted did:nuts environment and real did:nuts manager + store; " +
 		"a case is non-trivial when the cut operation changes documents on the twin")
@@ -917,7 +939,7 @@ func TestVerifC13(t *testing.T) {
 
 	var rc caseT
 	if r.ReplayCase(&rc) {
-		tw := dryRun(t, r, rc.Nuts, rc.Start, rc.Seq)
+		tw := dryRun(t, r, rc.Nuts, rc.Methods, rc.Start, rc.Seq)
 		cr := runCase(t, r, rc, tw)
 		r.Eval(ev.Key(rc))
 		r.Outcome(cr.outcome)
@@ -933,30 +955,40 @@ func TestVerifC13(t *testing.T) {
 	r.Bound("sequence_length_real_nuts", realLen)
 
 	type job struct {
-		kind  string
-		seq   []string
-		start string
+		kind    string
+		seq     []string
+		start   string
+		methods string
 	}
 	var jobs []job
 	// only maximal sequences are enumerated: the cuts of a shorter sequence are the cuts of the first operations of a longer one
 	for _, s := range sequences(maxLen, func(s []string) bool { return len(s) == maxLen }) {
-		jobs = append(jobs, job{"scripted", s, ""})
+		jobs = append(jobs, job{"scripted", s, "", ""})
 	}
 	if maxLenCreate > maxLen {
 		for _, s := range sequences(maxLenCreate, func(s []string) bool { return len(s) == maxLenCreate && s[0] == opCreateA }) {
-			jobs = append(jobs, job{"scripted", s, ""})
+			jobs = append(jobs, job{"scripted", s, "", ""})
 		}
 	}
 	for _, s := range sequences(realLen, func(s []string) bool { return len(s) == realLen && strings.HasPrefix(s[0], "create") }) {
-		jobs = append(jobs, job{"real", s, ""})
+		jobs = append(jobs, job{"real", s, "", ""})
 	}
 	// second start state: subject A exists and has a service (update / delete service have something to work on at once)
 	preLen := 2
 	if r.Thorough() {
 		preLen = 3
 	}
-	for _, s := range sequences(preLen, func(s []string) bool { return len(s) == preLen }) {
-		jobs = append(jobs, job{"scripted", s, "pre"})
+	for _, s := range sequences(preLen, func(s []string) bool { return len(s) == preLen && s[0] != opCreateB }) {
+		jobs = append(jobs, job{"scripted", s, "pre", ""})
+	}
+	// configuration dimension: the node with only did:nuts, and with only did:web, enabled
+	for _, methods := range []string{"nuts", "web"} {
+		for _, s := range sequences(maxLen, func(s []string) bool { return len(s) == maxLen && s[0] == opCreateA }) {
+			jobs = append(jobs, job{"scripted", s, "", methods})
+		}
+		for _, s := range sequences(preLen-1, func(s []string) bool { return len(s) == preLen-1 && !strings.HasPrefix(s[0], "create") }) {
+			jobs = append(jobs, job{"scripted", s, "pre", methods})
+		}
 	}
 	r.Bound("sequence_length_from_start_with_service", preLen)
 	r.Bound("sequences", len(jobs))
@@ -977,7 +1009,7 @@ func TestVerifC13(t *testing.T) {
 				break
 			}
 			if tw == nil {
-				tw = dryRun(t, r, jb.kind, jb.start, jb.seq)
+				tw = dryRun(t, r, jb.kind, jb.methods, jb.start, jb.seq)
 				if t.Failed() && r.Violations() == 0 {
 					t.Fatalf("harness: twin run failed for %v", jb.seq)
 				}
@@ -993,15 +1025,15 @@ func TestVerifC13(t *testing.T) {
 				if s.Kind == "ext" {
 					ext = s.Label
 				}
-				list = append(list, caseT{Start: jb.start, Nuts: jb.kind, Seq: jb.seq, At: at, Step: s.N, Ext: ext, Mode: "stop", Sweep: "plain", Label: s.String()})
+				list = append(list, caseT{Start: jb.start, Methods: jb.methods, Nuts: jb.kind, Seq: jb.seq, At: at, Step: s.N, Ext: ext, Mode: "stop", Sweep: "plain", Label: s.String()})
 				if s.Kind == "ext" && (s.Label == "end" || strings.HasSuffix(s.Label, ":done") || s.Label == "web.Commit") {
 					continue // errors are injected where the environment can fail: SQL steps and the did:nuts publish (did:web's Commit is empty)
 				}
-				list = append(list, caseT{Start: jb.start, Nuts: jb.kind, Seq: jb.seq, At: at, Step: s.N, Ext: ext, Mode: "error", Sweep: "plain", Label: s.String()})
+				list = append(list, caseT{Start: jb.start, Methods: jb.methods, Nuts: jb.kind, Seq: jb.seq, At: at, Step: s.N, Ext: ext, Mode: "error", Sweep: "plain", Label: s.String()})
 			}
 			for _, s := range tw.Steps[at] {
 				if s.Kind == "ext" && s.Label != "end" {
-					list = append(list, caseT{Start: jb.start, Nuts: jb.kind, Seq: jb.seq, At: at, Mode: "race", Race: s.Label, Sweep: "plain", Label: s.String()})
+					list = append(list, caseT{Start: jb.start, Methods: jb.methods, Nuts: jb.kind, Seq: jb.seq, At: at, Mode: "race", Race: s.Label, Sweep: "plain", Label: s.String()})
 				}
 			}
 			for _, c := range list {
